@@ -1,16 +1,20 @@
+import collections
 import copy
 from kvfile import KVFile
 
 
 def saver(resource, db, batch_size):
-    gen = db.insert_generator(
-        (('{:08x}'.format(idx), row)
-         for idx, row
-         in enumerate(resource)),
-        batch_size=batch_size
-    )
-    for _, row in gen:
-        yield row
+    # The copy is stored in batches, i.e. after rows were handed downstream:
+    # store a snapshot so later in-place edits of a row don't leak into the copy
+    passed = collections.deque()
+
+    def snapshots():
+        for idx, row in enumerate(resource):
+            passed.append(row)
+            yield '{:08x}'.format(idx), copy.deepcopy(row)
+
+    for _ in db.insert_generator(snapshots(), batch_size=batch_size):
+        yield passed.popleft()
 
 
 def loader(db):
